@@ -255,6 +255,78 @@ def setout_only_case(args):
         sc.close()
 
 
+def archived_output_case(args):
+    """a finished result is moved to an archive directory and a symbolic link is left at its path (or a precomputed file is
+    linked into the working directory): the declared output exists, through the link; a run in place executes no command for
+    it, the link and its target keep inode, mtime and bytes, and the downstream process gets the file"""
+    seed, i = args
+    rng = random.Random(seed * 15485939 + i)
+    sp = t3.Spec(maxtasks=rng.randint(1, 3), bufsize=rng.choice([1, 128]))
+    L = rng.randint(1, 3)
+    paths = ["ar%d.txt" % j for j in range(L)]
+    for p in paths:
+        sp.files[p] = p + "\n"
+    s = sp.src("src", paths)
+    a = sp.proc(t3.RawProc("gen", "echo gen {i:a} >> ../ran.log && cat {i:a} > {o:o} && echo generated >> {o:o}", ins=[("a", [(s, "out")])], outs=[("o", "{i:a}.res")]))
+    sp.proc(t3.RawProc("cpy", "echo cpy {i:in} >> ../ran.log && cat {i:in} > {o:o}", ins=[("in", [(a, "o")])], outs=[("o", "{i:in}.cpy")]))
+    sc = t3.Scratch()
+    try:
+        sc.plant(sp.files)
+        problems = []
+        mode = ["archive-after-first-run", "precomputed-link"][i % 2]
+        os.makedirs(os.path.join(sc.work, "store"))
+        if mode == "archive-after-first-run":
+            r0 = t3.run_impl(sc, sp)
+            if r0["rc"] != 0:
+                problems.append(("unexpected-failure", r0["stderr"][-200:]))
+            for p in paths:
+                os.rename(os.path.join(sc.work, p + ".res"), os.path.join(sc.work, "store", p + ".res"))
+                os.symlink(os.path.join("store", p + ".res") if rng.random() < 0.5 else os.path.join(sc.work, "store", p + ".res"), os.path.join(sc.work, p + ".res"))
+                for f in (p + ".res.cpy", p + ".res.cpy.audit.json"):
+                    try:
+                        os.remove(os.path.join(sc.work, f))
+                    except OSError:
+                        pass
+            want = {p: sp.files[p] + "generated\n" for p in paths}
+        else:
+            for p in paths:
+                open(os.path.join(sc.work, "store", p + ".res"), "w").write("PRECOMPUTED %s\n" % p)
+                os.symlink(os.path.join("store", p + ".res"), os.path.join(sc.work, p + ".res"))
+            want = {p: "PRECOMPUTED %s\n" % p for p in paths}
+        def lstamps():
+            out = {}
+            for p in paths:
+                for q in (p + ".res", os.path.join("store", p + ".res")):
+                    st = os.lstat(os.path.join(sc.work, q))
+                    out[q] = (st.st_ino, st.st_mtime_ns, st.st_mode, st.st_size)
+            return out
+        st0 = lstamps()
+        log0 = open(os.path.join(sc.work, "ran.log")).read() if os.path.exists(os.path.join(sc.work, "ran.log")) else ""
+        r1 = t3.run_impl(sc, sp)
+        log1 = (open(os.path.join(sc.work, "ran.log")).read() if os.path.exists(os.path.join(sc.work, "ran.log")) else "")[len(log0):]
+        if r1["rc"] != 0 or not r1["returned"]:
+            problems.append(("rerun-fails", "the run in place exits %s: %s" % (r1["rc"], r1["stderr"][-200:])))
+        else:
+            if "gen " in log1:
+                problems.append(("skipped-task-executed", "the output of `gen` exists (a symbolic link to the archived file), yet its command was executed: %s" % log1.split("\n")[:2]))
+            try:
+                st1 = lstamps()
+            except OSError as e:
+                st1 = {"error": str(e)}
+            if st1 != st0:
+                ch = sorted(k for k in st0 if st1.get(k) != st0[k])
+                problems.append(("existing-output-modified", "the existing output (link or its target) changed inode / mtime / mode / size: %s" % ch[:3]))
+            files = t3.data_files(r1["fs"])
+            for p in paths:
+                if files.get(p + ".res.cpy") != want[p]:
+                    problems.append(("downstream", "the downstream task did not get the existing file: %s.res.cpy is %r" % (p, files.get(p + ".res.cpy"))))
+                    break
+        return {"spec": sp.text(), "bufsize": sp.bufsize, "problems": problems[:3], "ntasks": 2 * L, "nskip": L, "rc": r1["rc"], "stderr": r1["stderr"][-200:],
+                "yield": None, "wall": r1["wall"], "gofunc": 0}
+    finally:
+        sc.close()
+
+
 def run(rep, tier, seed):
     proved = vlib.prove(rep, MODULE, THEOREMS)
     ok, msg = vlib.build_ocaml()
@@ -264,6 +336,7 @@ def run(rep, tier, seed):
     results = [r for r in t3.run_many(case, [(seed, i) for i in range(n)]) if r]
     results += [r for r in t3.run_many(interrupted_case, [(seed, i) for i in range(n // 4)]) if r]
     results += t3.run_many(setout_only_case, [(seed, i) for i in range(n // 12)])
+    results += t3.run_many(archived_output_case, [(seed, i) for i in range(n // 12)])
     results += t3.run_many(dir_output_rerun_case, [(seed, i) for i in range(n // 12)])
     results += [r for r in t3.run_many(tagged_rerun_case, [(seed, i) for i in range(n // 10)]) if r]
     results += t3.run_many(ks.ks_case, [(seed, i, ("rerun",)) for i in range(n // 8)])
